@@ -618,3 +618,59 @@ theorem proxZip_eq (E : Env α) : ∀ (fs : List (Fn α)) (rows : List (List α)
 end sepplain
 
 end Scico.ProxCalc
+
+namespace Scico.ProxCalc
+open Scico Scico.FuncEval
+
+/-! ### `SquaredL2Loss.prox`, closed-form branch on block arrays (Identity or block-diagonal `Diagonal`) -/
+section blockdiag
+
+theorem splitLike_flatten {β : Type} : ∀ (bs : List (List β)) (l : List β), l.length = bs.flatten.length →
+    (splitLike l (bs.map List.length)).flatten = l ∧ (splitLike l (bs.map List.length)).map List.length = bs.map List.length
+  | [], l, h => by
+    simp only [List.flatten_nil, List.length_nil, List.length_eq_zero_iff] at h
+    subst h; simp [splitLike]
+  | b :: bs, l, h => by
+    simp only [List.flatten_cons, List.length_append] at h
+    have hd : (l.drop b.length).length = bs.flatten.length := by rw [List.length_drop]; omega
+    obtain ⟨ih1, ih2⟩ := splitLike_flatten bs (l.drop b.length) hd
+    constructor
+    · simp only [List.map_cons, splitLike, List.flatten_cons, ih1, List.take_append_drop]
+    · simp only [List.map_cons, splitLike, ih2, List.length_take]
+      congr 1; omega
+
+variable {α : Type} [Add α] [Sub α] [Mul α] [Div α] [Neg α] [Zero α] [One α] [LT α] [DecidableLT α] [HasSqrt α]
+
+/-- on block arguments the closed-form branch returns, block by block, the entrywise closed form of the
+    concatenated data: the flattened result *is* `sqL2DiagProx` on the concatenations (so
+    `C08_sqL2_diag_minimises` / `_complex` apply to it), and it has the block shape of `v` -/
+theorem sqL2_block_prox (E : Env α) (ys vs : List (List α)) (A : OpK α) (w : Option (List α)) (s lam : α) (p : Arg α)
+    (hA : A = .ident ∨ ∃ d, A = .diag d) (h : prox E (.sqL2 (.blk ys) A w s) (.blk vs) lam = .ok p) :
+    ∃ a, diagOf E.cplx (nEntries E.cplx vs.flatten) A = some a ∧ a.length = vs.flatten.length ∧
+      vs.map List.length = ys.map List.length ∧
+      p = .blk (splitLike (sqL2DiagProx E.cplx s lam w a ys.flatten vs.flatten) (vs.map List.length)) ∧
+      ((sqL2DiagProx E.cplx s lam w a ys.flatten vs.flatten).length = vs.flatten.length →
+        p.flat = sqL2DiagProx E.cplx s lam w a ys.flatten vs.flatten ∧
+        ∃ ps, p = .blk ps ∧ ps.map List.length = vs.map List.length) := by
+  have key : ∀ a, diagOf E.cplx (nEntries E.cplx vs.flatten) A = some a →
+      prox E (.sqL2 (.blk ys) A w s) (.blk vs) lam =
+        if vs.map List.length = ys.map List.length ∧ a.length = vs.flatten.length then
+          .ok (.blk (splitLike (sqL2DiagProx E.cplx s lam w a ys.flatten vs.flatten) (vs.map List.length)))
+        else .error .shape := by
+    intro a ha
+    rcases hA with rfl | ⟨d, rfl⟩ <;> simp only [prox, ha]
+  obtain ⟨a, ha⟩ : ∃ a, diagOf E.cplx (nEntries E.cplx vs.flatten) A = some a := by
+    rcases hA with rfl | ⟨d, rfl⟩ <;> exact ⟨_, rfl⟩
+  rw [key a ha] at h
+  split at h
+  · rename_i hc
+    simp only [Except.ok.injEq] at h
+    refine ⟨a, ha, hc.2, hc.1, h.symm, fun hl => ?_⟩
+    obtain ⟨f1, f2⟩ := splitLike_flatten vs _ hl
+    subst h
+    exact ⟨f1, _, rfl, f2⟩
+  · cases h
+
+end blockdiag
+
+end Scico.ProxCalc
